@@ -167,6 +167,39 @@ CHECKS = {
         'design_ref': 'DESIGN.md 4 (C05)',
         'note': 'eigenvector columns are outside the oracle (C18 not claimed); float32 tolerances stated in the evidence',
     },
+    'C12': {
+        'engine': 'E2-world',
+        'technique': 'deterministic simulation of storage: seeded slab files whose every per-halo attribute is an injective '
+                     'function of the halo id, ids in seeded orders across slabs, row-by-row oracle after the real constructor',
+        'text': 'AbacusHOD(...) is constructed on simulated subsample files (h5 slabs, halo_info directory) with ids '
+                'increasing / decreasing / interleaved / random across 1-4 slabs, all option flags, chunking and both file '
+                'namings; afterwards ids must be strictly increasing, every per-halo array must equal f_k(hid[row]) and '
+                'hid[pinds[p]] must equal the id each particle records; staging buffers come from the poisoned allocator.',
+        'design_ref': 'DESIGN.md 4 (C12)',
+        'note': 'duplicate-free ids and >= 2 halos per loaded chunk are preconditions; _searchsorted_parallel runs compiled',
+    },
+    'C16': {
+        'engine': 'E2-world',
+        'technique': 'deterministic simulation of storage + poisoned allocator: seeded particle files of every kind read by '
+                     'read_asdf under several column requests, reference decoders as oracle',
+        'text': 'rvint / pack9 (cell headers interleaved, so fewer rows than records) / packedpid / pid files, files with two '
+                'or none of the known raw columns, snapshot and light-cone headers; 2-4 requests per file (default, subsets in '
+                'seeded order, float32/float64, deprecated flags, explicit colname): exactly the requested columns, one row '
+                'per particle in file order, values equal to independent decoders within the format quantum, bitwise equal '
+                'across requests, identical under both allocator poisons, header preserved in meta, ambiguity rejected.',
+        'design_ref': 'DESIGN.md 4 (C16)',
+        'note': 'pack9 reference written from the documented record layout',
+    },
+    'C20': {
+        'engine': 'E2-world',
+        'technique': 'deterministic simulation of storage and of the output pipe (recording sink through the pipe= seam) '
+                     'with an injected missing file / field; ordering check over the recorded I/O history',
+        'text': 'the recorded byte stream is parsed by an independent reader of the documented wire format and compared, per '
+                'field in request order, with (count, width, concatenation over files in argument order); under the fault '
+                'an exception must be raised and the history must contain no write event.',
+        'design_ref': 'DESIGN.md 4 (C20)',
+        'note': '1-4 files x 1-5 columns, 1-D and multi-dimensional, item widths 1..16, empty columns, compression on/off',
+    },
 }
 
 NOT_APPLICABLE = {
@@ -177,5 +210,5 @@ NOT_APPLICABLE = {
            'no chunking, interleaving or fault for a simulator to vary',
     'C18': 'pure function on a finite domain of 65340 codes: complete enumeration, which is not simulation',
 }
-for _p in ('C11', 'C12', 'C16', 'C19', 'C20'):
+for _p in ('C11', 'C19'):
     NOT_APPLICABLE.setdefault(_p, PENDING)
